@@ -21,6 +21,8 @@
 (*   nodeHas  transactions the node acknowledged having (ok/mem/res/seen)  *)
 (*   chain    the active chain as given to the tower: set of [id,h,keys]   *)
 (*   lastAcc  set of [k,key,pay,size,tsd]: last accepted version per (u,l) *)
+(*   fresh    transactions the node gave a verdict about since the last    *)
+(*            block was completely processed                               *)
 (***************************************************************************)
 EXTENDS Tower
 
@@ -41,29 +43,31 @@ HeightKnown(g, h) == \E b \in g.chain : b.h = h
 -----------------------------------------------------------------------------
 (* C01 - every breach of an accepted appointment is answered              *)
 
-\* what the tower learns about penalty p in this step: the index, then the mempool, then the memoised or fresh verdict
-NodeSaid(pre, E, p) ==
+\* what the tower learns about penalty p in this step: the index, then the mempool, then the memoised or fresh verdict.
+\* A memoised verdict counts only if the node gave it since the last block was completely processed (g.fresh): the tower
+\* may remember the node's answers while it works on a block, it must not answer a later breach from an old one.
+NodeSaid(pre, E, p, g) ==
     IF IdxHas(pre.rIndex, p) \/ E.orc[p] = "mem" THEN "have"
-    ELSE IF MemoHas(pre.memo, p) THEN MemoOf(pre.memo, p).v
+    ELSE IF MemoHas(pre.memo, p) /\ p \in g.fresh THEN MemoOf(pre.memo, p).v
     ELSE E.orc[p]
-Known(pre, E, p) == NodeSaid(pre, E, p) \in {"have", "ok", "rej", "res"}
-Taken(pre, E, p) == NodeSaid(pre, E, p) \in {"have", "ok"}
-Refused(pre, E, p) == NodeSaid(pre, E, p) = "rej"
+Known(pre, E, p, g) == NodeSaid(pre, E, p, g) \in {"have", "ok", "rej", "res"}
+Taken(pre, E, p, g) == NodeSaid(pre, E, p, g) \in {"have", "ok"}
+Refused(pre, E, p, g) == NodeSaid(pre, E, p, g) = "rej"
 
-C01_OneBreach(pre, E, post, a) ==
+C01_OneBreach(pre, E, post, a, g) ==
     LET p == Decrypt(BlobOf(a), a.l)
         k == Key(a)
     IN IF p = NoTx
        THEN Tag(~HasKey(post.appts, k), "C01", "invalid_kept")
-       ELSE Tag(Known(pre, E, p), "C01", "not_submitted")
-            \cup (IF Taken(pre, E, p) /\ ~HasKey(pre.trackers, k)
+       ELSE Tag(Known(pre, E, p, g), "C01", "not_submitted")
+            \cup (IF Taken(pre, E, p, g) /\ ~HasKey(pre.trackers, k)
                   THEN Tag(\E t \in post.trackers : Key(t) = k /\ t.d = a.l /\ t.p = p, "C01", "not_responded")
                   ELSE {})
-            \cup (IF Refused(pre, E, p) THEN Tag(~HasKey(post.appts, k), "C01", "rejected_kept") ELSE {})
+            \cup (IF Refused(pre, E, p, g) THEN Tag(~HasKey(post.appts, k), "C01", "rejected_kept") ELSE {})
 
-C01_WConnect(pre, E, post) ==
+C01_WConnect(pre, E, post, g) ==
     LET breached == {a \in pre.appts : a.l \in E.blk.keys}
-    IN (UNION {C01_OneBreach(pre, E, post, a) : a \in breached})
+    IN (UNION {C01_OneBreach(pre, E, post, a, g) : a \in breached})
        \cup Tag(\A a \in pre.appts : a.l \notin E.blk.keys => a \in post.appts, "C01", "wrong_drop")
        \cup Tag(\A t \in pre.trackers : t.l \notin E.blk.keys => t \in post.trackers, "C01", "wrong_drop")
        \cup Tag(Keys(post.appts) \subseteq Keys(pre.appts), "C01", "appt_created")
@@ -71,7 +75,7 @@ C01_WConnect(pre, E, post) ==
                 "C02", "unjustified_tracker")
 
 \* Add accepted (reply ok) for an appointment whose dispute is in the cache: answered before replying
-C01_Add(pre, E, post) ==
+C01_Add(pre, E, post, g) ==
     IF E.reply.code # "ok" THEN {}
     ELSE LET a == E.a
              row == [u |-> E.who, l |-> a.l, key |-> a.blob.key, pay |-> a.blob.pay, size |-> a.blob.size,
@@ -80,11 +84,11 @@ C01_Add(pre, E, post) ==
          IN IF IdxHas(pre.wCache, a.l)
             THEN LET p == Decrypt(a.blob, a.l)
                  IN IF p = NoTx THEN {}   \* dropped or (when it was an update) the old version kept: nothing to answer
-                    ELSE Tag(Known(pre, E, p), "C01", "not_submitted")
-                         \cup (IF Taken(pre, E, p)
+                    ELSE Tag(Known(pre, E, p, g), "C01", "not_submitted")
+                         \cup (IF Taken(pre, E, p, g)
                                THEN Tag(\E t \in post.trackers : Key(t) = k /\ t.d = a.l /\ t.p = p, "C01", "not_responded")
                                ELSE {})
-                         \cup (IF Refused(pre, E, p) THEN Tag(~HasKey(post.appts, k), "C01", "rejected_kept") ELSE {})
+                         \cup (IF Refused(pre, E, p, g) THEN Tag(~HasKey(post.appts, k), "C01", "rejected_kept") ELSE {})
             ELSE \* not triggered: the submitted version is what is held from now on
                  Tag(row \in post.appts, "C08", "not_stored")
                  \cup Tag(~HasKey(post.trackers, k), "C02", "unjustified_tracker")
@@ -120,8 +124,8 @@ C02_Status(pre, E, post, g2) ==
 C04_RConnect(pre, E, post, g) ==
     LET h == E.blk.h
         inblk(t) == t.p \in E.blk.keys
-        asked(tx) == tx \in E.sends \/ MemoHas(pre.memo, tx)
-        vOf(tx) == IF MemoHas(pre.memo, tx) THEN MemoOf(pre.memo, tx).v ELSE E.orc[tx]
+        asked(tx) == tx \in E.sends \/ (MemoHas(pre.memo, tx) /\ tx \in g.fresh)
+        vOf(tx) == IF MemoHas(pre.memo, tx) /\ tx \in g.fresh THEN MemoOf(pre.memo, tx).v ELSE E.orc[tx]
         removed == {t \in pre.trackers : ~HasKey(post.trackers, Key(t))}
         \* buried IRR deep on the active chain (g.chain already contains this block)
         deep(t) == t.conf /\ ~inblk(t) /\ Key(t) \notin pre.reorged /\ h = t.h + IRR /\ OnActive(g, t.p, t.h)
